@@ -169,7 +169,9 @@ def dump_prop(case, rec):
             if n in closure:
                 continue
             closure.append(n)
-            if n in byname and not (n == victim and world in ('missing-dep', 'broken-lex', 'broken-semantic')):
+            unfindable = n == victim and (world in ('missing-dep', 'broken-lex', 'broken-semantic')
+                                          or (world == 'alias' and victim != names[-1]))
+            if n in byname and not unfindable:
                 for frm, syms in byname[n]['imports']:
                     if frm in byname:
                         todo.append(frm)
@@ -331,8 +333,10 @@ def copy_cases(draw):
             files.append({'module': name, 'rev': rev, 'dir': d, 'file': fname, 'marker': '%d-%d' % (mi, ci),
                           'nomi': rev is None and draw(st.booleans())})
     pre = None
-    if draw(st.integers(0, 2)) == 0:
-        pre = {'module': files[0]['module'], 'rev': draw(st.sampled_from(REVS + [None])), 'marker': 'pre'}
+    if draw(st.booleans()):
+        # half of the time the destination already holds the newest revision of all (left by an earlier run)
+        pre = {'module': files[0]['module'], 'rev': REVS[-1] if draw(st.booleans()) else draw(st.sampled_from(REVS + [None])),
+               'marker': 'pre'}
     return {'files': files, 'pre': pre, 'as_dirs': draw(st.integers(0, 3)) == 0, 'hashseed': draw(st.sampled_from((0, 3))),
             'reldst': draw(st.booleans())}    # destination typed as a relative path (cwd = its parent)
 
@@ -408,7 +412,7 @@ def copy_prop(case, rec):
 
 def run(ctx):
     ctx.search('mibdump', dump_cases, dump_prop, ctx.pick(320, 6000), shrink=ctx.tier == 'thorough')
-    ctx.search('mibcopy', copy_cases, copy_prop, ctx.pick(64, 1200), shrink=ctx.tier == 'thorough')
+    ctx.search('mibcopy', copy_cases, copy_prop, ctx.pick(48, 1200), shrink=ctx.tier == 'thorough')
 
 
 def replay(ctx, data):
